@@ -221,6 +221,7 @@ class LrParserBuilder:
         self.logger = logging.getLogger("pcc")
         self.grammar = grammar
         self._first = None  # Cached first set
+        self._nullable = None  # Cached set of nullable non-terminals
 
         # Work data structures:
         self.action_table = {}
@@ -237,6 +238,23 @@ class LrParserBuilder:
             self._first = calculate_first_sets(self.grammar)
         return self._first
 
+    @property
+    def nullable(self):
+        """The set of non-terminals which can derive the empty string"""
+        if self._nullable is None:
+            nullable = set()
+            while True:
+                new = {
+                    p.name
+                    for p in self.grammar.productions
+                    if all(s in nullable for s in p.symbols)
+                }
+                if new == nullable:
+                    break
+                nullable = new
+            self._nullable = nullable
+        return self._nullable
+
     def closure(self, itemset):
         """Expand itemset by using epsilon moves"""
         worklist = list(itemset)
@@ -247,10 +265,15 @@ class LrParserBuilder:
                 worklist.append(itm)
 
         def first2(itm):
-            # When using the first sets, create a copy:
-            f = set(self.first[itm.NextNext])
-            if EPS in f:
-                f.discard(EPS)
+            # First set of everything that follows the next symbol,
+            # looking through nullable non-terminals, ending with the
+            # look ahead of the item itself:
+            f = set()
+            for symbol in itm.production.symbols[itm.dotpos + 1 :]:
+                f |= self.first[symbol]
+                if symbol not in self.nullable:
+                    break
+            else:
                 f.add(itm.look_ahead)
             return f
 
